@@ -200,6 +200,13 @@ def cases(tier):
 
             plain = [elem(i + 1) for i in range(L)]
             yield dict(kind="fwd-plain", tph=("forwarded",), count=count, headers=[("Forwarded", ", ".join(plain))], L=L)
+            # empty forwarded-pairs are grammatical (RFC 7239 section 4): the element means the same
+            for lead, sep, trail in ((";", ";", ""), ("", ";;", ""), ("", ";", ";"), (";;", ";;;", ";;")):
+                lst = [lead + e.replace(";", sep) + trail for e in plain]
+                yield dict(kind="fwd-plain", tph=("forwarded",), count=count, headers=[("Forwarded", ", ".join(lst))], L=L)
+            # optional whitespace around the list separator
+            yield dict(kind="fwd-plain", tph=("forwarded",), count=count, headers=[("Forwarded", " ,\t".join(plain))], L=L)
+            yield dict(kind="fwd-plain", tph=("forwarded",), count=count, headers=[("Forwarded", ",".join(plain))], L=L)
             # missing attributes in the selected hop: fall back to the nearest more-trusted hop
             for miss in ("for", "host", "proto"):
                 lst = list(plain)
@@ -440,6 +447,8 @@ def _batch(items):
     classes = set()
     for case in items:
         kw = dict(trusted_proxy=PEER[0], trusted_proxy_count=case["count"], trusted_proxy_headers=list(case["tph"]))
+        if "clear" in case:
+            kw["clear_untrusted_proxy_headers"] = case["clear"]
         env = get_env(kw)
         base = getattr(env, "_c16_base", None)
         if base is None:
@@ -447,7 +456,7 @@ def _batch(items):
             base = env._c16_base = b[0]
         got, status, esc, log = run(env, case["headers"])
         v = judge(case, got, status, esc, log, base)
-        classes.add((case["kind"], case["tph"], case["count"], status, case.get("odd"), case.get("L")))
+        classes.add((case["kind"], case["tph"], case["count"], status, case.get("odd"), case.get("L"), case.get("clear")))
         for key, what in v:
             out.append((key, what, case))
     return len(items), classes, out
@@ -462,8 +471,10 @@ def main(tier, only=None):
         "oracle: reference hop selection, left hops never leak, untrusted kinds stripped and without influence, listed malformed classes -> 400, never an exception or 500; "
         "distinct_nontrivial = distinct (kind, trusted set, count, status, odd class, length)"
     )
-    r.assume("clear_untrusted_proxy_headers on (default)", "for degenerate elements (':80', '[', ...) only totality is demanded unless the property lists the class as 400")
+    r.assume("clear_untrusted_proxy_headers on (default) for the stripping clauses; the hop-selection cases are run with it off as well", "for degenerate elements (':80', '[', ...) only totality is demanded unless the property lists the class as 400")
     items = list(cases(tier))
+    # the same selection rules with clear_untrusted_proxy_headers off (trusted kinds must still be interpreted)
+    items += [dict(c, clear=False) for c in items if c["kind"] in ("fwd-plain", "fwd-missing", "hostport", "xfpp") or (c["kind"] in ("xff", "xfh") and c["count"] == 2)]
     if only:
         items = [c for c in items if only in c["kind"]]
     rnd.shuffle(items)
@@ -493,6 +504,8 @@ def main(tier, only=None):
 
 def replay(rep):
     kw = dict(trusted_proxy=PEER[0], trusted_proxy_count=rep["count"], trusted_proxy_headers=list(rep["tph"]))
+    if "clear" in rep:
+        kw["clear_untrusted_proxy_headers"] = rep["clear"]
     env = get_env(kw)
     got, status, esc, log = run(env, [tuple(h) for h in rep["headers"]])
     print("status:", status, "environ:", got, esc)
